@@ -236,6 +236,7 @@ impl State {
 //@use corewords.fns State::load_core#w_error
 //@use corewords.fns State::load_core#w_sort
 //@use corewords.fns State::load_core#w_reverse
+//@use corewords.fns State::load_core#w_exit
 
 //@use coll.fns ::let_map_begin
 //@use coll.fns ::let_map_end
